@@ -59,4 +59,102 @@ mod kani_probe {
         canonicalize_path(&mut s);
         assert!(s.len() <= 10 && s.len() >= 1);
     }
+
+    fn is_sep(b: u8) -> bool {
+        b == b'/' || b == b'\\'
+    }
+
+    /// reference: separate output buffer, explicit component stack
+    fn spec<const N: usize>(inp: &[u8; N]) -> ([u8; N], usize) {
+        let mut out = [0u8; N];
+        let mut n = 0usize;
+        let mut starts = [0usize; N];
+        let mut depth = 0usize;
+        let mut i = 0usize;
+        if is_sep(inp[0]) {
+            out[0] = inp[0];
+            n = 1;
+            i = 1;
+        }
+        while i < N {
+            // component [i, j)
+            let mut j = i;
+            while j < N && !is_sep(inp[j]) {
+                j += 1;
+            }
+            let has_sep = j < N;
+            let len = j - i;
+            if len == 0 {
+                // empty component
+            } else if len == 1 && inp[i] == b'.' {
+                // "." dropped
+            } else if len == 2 && inp[i] == b'.' && inp[i + 1] == b'.' {
+                if depth > 0 {
+                    depth -= 1;
+                    n = starts[depth];
+                } else {
+                    out[n] = b'.';
+                    out[n + 1] = b'.';
+                    n += 2;
+                    if has_sep {
+                        out[n] = inp[j];
+                        n += 1;
+                    }
+                }
+            } else {
+                starts[depth] = n;
+                depth += 1;
+                let mut k = i;
+                while k < j {
+                    out[n] = inp[k];
+                    n += 1;
+                    k += 1;
+                }
+                if has_sep {
+                    out[n] = inp[j];
+                    n += 1;
+                }
+            }
+            i = j + 1;
+        }
+        if n == 0 {
+            out[0] = b'.';
+            n = 1;
+        }
+        (out, n)
+    }
+
+    macro_rules! full {
+        ($name:ident, $n:expr, $unw:expr) => {
+            #[kani::proof]
+            #[kani::unwind($unw)]
+            fn $name() {
+                let bytes: [u8; $n] = kani::any();
+                for i in 0..$n {
+                    let b = bytes[i];
+                    kani::assume(b == b'a' || b == b'.' || b == b'/' || b == b'\\');
+                }
+                let (want, wn) = spec::<$n>(&bytes);
+                let mut s = unsafe { String::from_utf8_unchecked(bytes.to_vec()) };
+                canonicalize_path(&mut s);
+                assert!(s.len() == wn);
+                let got = s.as_bytes();
+                for i in 0..$n {
+                    if i < wn {
+                        assert!(got[i] == want[i]);
+                    }
+                }
+                canonicalize_path(&mut s);
+                assert!(s.len() == wn);
+                let got = s.as_bytes();
+                for i in 0..$n {
+                    if i < wn {
+                        assert!(got[i] == want[i]);
+                    }
+                }
+            }
+        };
+    }
+    full!(canon_full_4, 4, 7);
+    full!(canon_full_6, 6, 9);
 }
